@@ -1,7 +1,7 @@
 (* Judges of the C03 correspondence suites. *)
 From Coq Require Import NArith ZArith List Bool.
 From PS Require Import Base.Chars Base.Outcome Model.SString Model.ModBytes Model.Modifiers
-                       Spec.Items Spec.ModSpec Run.Bits.
+                       Spec.Items Spec.ModSpec Proofs.ModifiersP Run.Bits.
 Import ListNotations.
 Open Scope N_scope.
 
@@ -136,14 +136,15 @@ Definition yv_nontrivial (v : yv) : bool :=
   | _ => false
   end.
 
-(* suite item: (key, value, valid CIDR texts among the source strings, in-domain flag computed
-   by the harness from the source input, implementation result) *)
-Definition judge_item (c : option str * yin * list str * bool * obs) : N :=
-  let '(key, val, cidrs, dom, r) := c in
+(* suite item: (key, value, valid CIDR texts among the source strings, implementation result).
+   bit 4 = the premise of theorem C03_refines_spec_partial (Proofs.ModifiersP.in_domain), computed
+   from the source input *)
+Definition judge_item (c : option str * yin * list str * obs) : N :=
+  let '(key, val, cidrs, r) := c in
   let O := mkO cidrs in
   let m := obs_of (from_mapping O key val) in
   let ids := snd (split_key key) in
-  bits (obs_eqb m r) (spec_accepts O key val r) dom
+  bits (obs_eqb m r) (spec_accepts O key val r) (in_domain key val)
        (negb (match ids with [] => true | _ => false end)
         && existsb yv_nontrivial (match val with YOne v => [v] | YMany l => l end)
         || (1 <? length ids)%nat).
